@@ -57,3 +57,24 @@ fire("C18", "operator-map_wires-edits-self-reached-by-dispatch",
      (BASE, "        new_op = copy.copy(self)\n        new_op._wires = Wires([wire_map.get(wire, wire) for wire in self.wires])",
             "        new_op = self\n        new_op._wires = Wires([wire_map.get(wire, wire) for wire in self.wires])"),
      "R-C18-effect", "map_wires")
+
+# --- parameter values (data) of owned operators: in-place arithmetic edits the caller's arrays
+CGP = "pennylane/transforms/combine_global_phases.py"
+SNC = "pennylane/transforms/split_non_commuting.py"
+DM = "pennylane/transforms/diagonalize_measurements.py"
+fire("C18", "combine_global_phases-accumulator-starts-from-owned-parameter",
+     (CGP, "            has_global_phase = True\n            phi += op.parameters[0]",
+           "            if not has_global_phase:\n                phi = op.parameters[0]\n            else:\n                phi += op.parameters[0]\n            has_global_phase = True"),
+     "R-C18-effect", "combine_global_phases")
+silent("C18", "combine_global_phases-rebinding-sum",
+       [(CGP, "            phi += op.parameters[0]", "            phi = phi + op.parameters[0]")])
+fire("C18", "split_non_commuting-duplicate-term-coefficient-added-in-place",
+     (SNC, "                    single_term_obs_mps[mp].coeffs[0] = single_term_obs_mps[mp].coeffs[0] + coeff",
+           "                    single_term_obs_mps[mp].coeffs[0] += coeff"),
+     "R-C18-effect", "split_non_commuting")
+fire("C18", "diagonalize_measurements-writes-base-into-owned-hyperparameters-via-singledispatch",
+     (DM, "    hyperparams = copy(hyperparams)\n    hyperparams[\"base\"] = new_base", "    hyperparams[\"base\"] = new_base"),
+     "R-C18-effect", "diagonalize_measurements")
+silent("C18", "split_non_commuting-rebinding-sum",
+       [(SNC, "                    single_term_obs_mps[mp].coeffs[0] = single_term_obs_mps[mp].coeffs[0] + coeff",
+              "                    first = single_term_obs_mps[mp].coeffs[0]\n                    single_term_obs_mps[mp].coeffs[0] = first + coeff")])
